@@ -29,10 +29,18 @@ def gen_programs(rng, nmax=5, pools=False):
             startsecs=rng.choice([0, 1, 1, 2]), startretries=rng.choice([0, 1, 3]), exitcodes=rng.choice([[0], [0, 2]]),
             stopsignal=rng.choice([signal.SIGTERM, signal.SIGINT, signal.SIGHUP]), stopwaitsecs=rng.choice([1, 2, 3]),
             stopasgroup=rng.random() < 0.2, killasgroup=rng.random() < 0.3,
-            dies_on=rng.choice(['any', 'any', 'kill']), die_delay=rng.choice([0, 0, 1])))
+            dies_on=rng.choice(['any', 'any', 'kill']), die_delay=rng.choice([0, 0, 1]),
+            leaves_pipes_open=rng.random() < 0.15))
     for p in progs:
         if p['stopasgroup']:
             p['killasgroup'] = True
+    # sometimes one whole group is configured but not active at start: it is added (and maybe removed) at run time
+    groups = sorted({p['group'] for p in progs})
+    if len(groups) >= 2 and rng.random() < 0.35:
+        lg = rng.choice(groups)
+        for p in progs:
+            if p['group'] == lg:
+                p['late'] = True
     return progs
 
 
@@ -42,6 +50,8 @@ def gen_script(rng, progs, npass, shutdown=None, faults=False, rpcs=True, group_
     ns = {p['name']: '%s:%s' % (p['group'], p['name']) for p in progs}
     script = []
     rid = [0]
+    late = sorted({p['group'] for p in progs if p.get('late')})
+    add_at = rng.randrange(0, max(1, npass // 2)) if late else None
     for i in range(npass):
         dt = rng.choice([256, 512, 1024, 1024, 1024, 2048, 3072])
         if rng.random() < 0.03:
@@ -84,6 +94,12 @@ def gen_script(rng, progs, npass, shutdown=None, faults=False, rpcs=True, group_
             acts.append(('missing', rng.choice(names), rng.random() < 0.7))
         if rng.random() < 0.03:
             acts.append(('sig', rng.choice([signal.SIGCHLD, signal.SIGUSR2])))
+        if late and i == add_at:
+            rid[0] += 1
+            acts.append(('addgroup', rid[0], late[0]))
+        if late and rng.random() < 0.05:
+            rid[0] += 1
+            acts.append((rng.choice(['addgroup', 'removegroup', 'removegroup']), rid[0], rng.choice(sorted({p['group'] for p in progs}))))
         if shutdown is not None and i == shutdown:
             if rng.random() < 0.7:
                 acts.append(('sig', rng.choice([signal.SIGTERM, signal.SIGINT, signal.SIGQUIT, signal.SIGHUP])))
@@ -123,7 +139,7 @@ def mon_c02(ctx, k, inp):
     zombie_age = {}
     unreaped = {}     # name -> set of pids (kernel truth, maintained from the log)
     waited = set()
-    if k.outcome.startswith('exception'):
+    if k.outcome.startswith('exception') or k.outcome == 'blocked':
         ps = ps[:-1]          # the snapshot taken after the loop died is not a main-loop boundary
     for recs, b in ps:
         for i, r in enumerate(recs):
@@ -235,6 +251,8 @@ def mon_c05(ctx, k, inp):
 
 
 def mon_c06(ctx, k, inp):
+    if k.outcome == 'blocked':
+        ctx.violation('main-loop-blocked', 'the main loop hangs in a system call: %s' % getattr(k, 'exc', ''), inp)
     if k.outcome.startswith('exception'):
         tb = getattr(k, 'exc', '')
         last = tb.strip().split('\n')[-1]
@@ -354,10 +372,10 @@ def sup_case_line(k):
         for pc in cfg.process_configs:
             pidx[pc.name] = len(pidx)
             p = k.programs[pc.name]
-            toks.append('prog=%d/%d/%d/%d/%d/%d/%d/%s/%s/%d/%d/%d/%d' % (
+            toks.append('prog=%d/%d/%d/%d/%d/%d/%d/%s/%s/%d/%d/%d/%d/%d' % (
                 gidx[cfg.name], cfg.priority, pidx[pc.name], pc.priority, pc.startsecs * TICK, pc.startretries,
                 int(pc.autostart), p.get('autorestart', 'unexpected'), '.'.join(str(x) for x in pc.exitcodes) or '-',
-                int(pc.stopsignal), pc.stopwaitsecs * TICK, int(pc.stopasgroup), int(pc.killasgroup)))
+                int(pc.stopsignal), pc.stopwaitsecs * TICK, int(pc.stopasgroup), int(pc.killasgroup), int(bool(p.get('late')))))
     return 'case sup ' + ' '.join(toks), gidx, pidx
 
 
@@ -386,6 +404,22 @@ def sup_lines(k):
         segs.append(cur)
     sigq = []
     ops, lines = [], []
+    deferred_group = {}      # id of a pending deferred call -> group of its target
+    begin_group = {}
+    orphaned = False
+    for r in k.log:
+        if r['kind'] == 'rpc-begin' and r['args']:
+            begin_group[r['id']] = str(r['args'][0]).split(':')[0]
+            if r['method'].endswith('removeProcessGroup'):
+                begin_group[r['id']] = ('remove', r['args'][0])
+        elif r['kind'] == 'rpc-deferred':
+            deferred_group[r['id']] = begin_group.get(r['id'])
+        elif r['kind'] == 'rpc-answer':
+            if r.get('deferred'):
+                deferred_group.pop(r['id'], None)
+            bg = begin_group.get(r['id'])
+            if isinstance(bg, tuple) and r.get('value') is True and bg[1] in deferred_group.values():
+                orphaned = True      # a deferred answer now refers to a process object outside the process table
     for si, recs in enumerate(segs):
         poll = recs[0]
         for a in k.script[poll['passno'] - 1][1]:
@@ -456,6 +490,8 @@ def sup_lines(k):
                         rpcs.append('signal:%d:%d:%d:%d' % (r['id'], gi, ni, sn))
                 elif m in ('shutdown', 'restart'):
                     rpcs.append('%s:%d' % (m, r['id']))
+                elif m in ('addProcessGroup', 'removeProcessGroup'):
+                    rpcs.append('%s:%d:%d' % ('addgroup' if m == 'addProcessGroup' else 'removegroup', r['id'], gidx.get(a[0], 99)))
                 else:
                     rpcs.append('unsupported:%d' % r['id'])
             elif kd == 'rpc-answer':
@@ -484,10 +520,12 @@ def sup_lines(k):
         if boundary is None:
             continue        # the run was cut (StopSim) inside this pass: nothing to compare
         st = ' '.join('%s=%s:%d' % (pn(full.split(':')[1]), ST.get(s, s), pid)
-                      for full, (s, pid) in sorted(boundary['procs'].items(), key=lambda kv: pidx[kv[0].split(':')[1]]))
+                      for full, (s, pid) in boundary['procs'].items())      # process_groups insertion order
         def j(xs, sep):
             return sep.join(xs) if xs else '-'
         ops.append('pass now=%d sig=%s spawns=%s kills=%s waits=%s rpcs=%s' % (
             poll['t'], sig, j(spawns, ','), j(kills, ','), j([j(s, ',') if s else 'e' for s in waits], '/') if waits else '-', j(rpcs, ';')))
         lines.append('%s | %s mood=%d | %s' % (j(outs, ';'), st, boundary['mood'], status))
+    if orphaned:
+        ops = ops + ['unsupported: deferred call outlives the removal of its group']
     return case, ops, lines
